@@ -1,3 +1,6 @@
+pub mod c04;
 pub mod c05;
+pub mod c19;
+pub mod c20;
 
-pub const ALL: &[&str] = &["C05"];
+pub const ALL: &[&str] = &["C04", "C05", "C19", "C20"];
